@@ -1,4 +1,9 @@
 (* NumProofs.v — lemmas and proofs about the number-writing model Model/Num.v (property C05).
+   Sections: 0 strings; 1 unchanged values; 2 no fusion; 3 the written number as an exact decimal;
+   4 digit strings; 5 integers; 6 the first word; 7 digit generation error bounds; 8 reading %e / %f;
+   9 the scientific and fixed branches of _format_float; 10 str.strip, the scanner's alphabet;
+   11 float(): flog2, nearest double, 17 digits round-trip; 12 reading %g; 13 the float theorem;
+   14 integer / converted nodes, int(round()), the precision loop.
    No axioms, no admits. *)
 From Coq Require Import List String Ascii ZArith QArith Qabs Qpower Bool Lia Lqa.
 From MPV Require Import Model.Wire Model.Num.
